@@ -19,6 +19,9 @@ import (
 type POp struct {
 	K   string `json:"k"`
 	Job string `json:"job,omitempty"` // noop | gate (blocks until the harness opens the gate) | ctx (waits for its context)
+	// Cctx: the caller's context of this Send. 0 = live; 1 = cancelled before Send is called; 2 = cancelled
+	// right after Send has returned (the request that produced the job is over). The job must run all the same.
+	Cctx int `json:"cctx,omitempty"`
 }
 
 type PoolCase struct {
@@ -103,7 +106,14 @@ func runPool(c PoolCase, count bool) *poolRun {
 				res.jobs = append(res.jobs, j)
 				okBefore := running && !stopCalled
 				j.sendCall = tick()
-				p.Send(ctx, wpool.Event{Caller: fmt.Sprintf("job%d", j.id), Fn: func(jctx context.Context) error {
+				sctx, cancelCaller := ctx, func() {}
+				if op.Cctx != 0 {
+					sctx, cancelCaller = context.WithCancel(ctx)
+					if op.Cctx == 1 {
+						cancelCaller()
+					}
+				}
+				p.Send(sctx, wpool.Event{Caller: fmt.Sprintf("job%d", j.id), Fn: func(jctx context.Context) error {
 					j.starts = append(j.starts, tick())
 					switch j.kind {
 					case "gate":
@@ -129,6 +139,7 @@ func runPool(c PoolCase, count bool) *poolRun {
 					j.ends = append(j.ends, tick())
 					return nil
 				}})
+				cancelCaller()
 				j.sendRet = tick()
 				j.whileRunning = okBefore && running && !stopCalled
 				returnedSends++
@@ -344,6 +355,8 @@ func c16Catalogue() []PoolCase {
 		{Workers: 1, Pre: run, Post: stop, Actors: [][]POp{append(sends(1, "ctx"), sends(2, "noop")...)}},
 		{Workers: 1, Lifecyle: true, Actors: [][]POp{{{K: "run"}, {K: "send", Job: "noop"}, {K: "stop"}}, {{K: "stop"}}}},
 		{Workers: 1, Lifecyle: true, Actors: [][]POp{{{K: "run"}}, {{K: "send", Job: "noop"}}, {{K: "stop"}}}},
+		// callers whose context is already cancelled, or is cancelled as soon as Send has returned
+		{Workers: 1, Pre: run, Post: stop, Actors: [][]POp{{{K: "send", Job: "gate"}, {K: "send", Job: "noop", Cctx: 1}, {K: "send", Job: "noop", Cctx: 2}, {K: "send", Job: "noop"}, {K: "send", Job: "noop", Cctx: 1}, {K: "send", Job: "noop", Cctx: 2}}}},
 		// second generation: a first Run/Stop cycle that ended with a busy flusher, then the deferred path again
 		{Workers: 1, Pre: firstGeneration(1, 5), Post: stop, Actors: [][]POp{append(sends(1, "gate"), sends(4, "noop")...)}},
 		{Workers: 2, Pre: firstGeneration(2, 8), Post: stop, Actors: [][]POp{append(sends(2, "gate"), sends(6, "noop")...)}},
@@ -418,7 +431,7 @@ func genPool(t *rapid.T) PoolCase {
 		for a := 0; a < ns; a++ {
 			var s []POp
 			for n := rapid.IntRange(1, 6).Draw(t, "nsends"); n > 0; n-- {
-				s = append(s, POp{K: "send", Job: rapid.SampledFrom(jobKinds).Draw(t, "job")})
+				s = append(s, POp{K: "send", Job: rapid.SampledFrom(jobKinds).Draw(t, "job"), Cctx: rapid.SampledFrom([]int{0, 0, 0, 0, 1, 2}).Draw(t, "cctx")})
 			}
 			c.Actors = append(c.Actors, s)
 		}
